@@ -440,6 +440,7 @@ type Clause struct {
 	Loop  int
 	Line  string // file:line
 	Props []string
+	Except []string // modifies memory except T1 T2: struct types whose fields are preserved
 }
 
 type Contract struct {
@@ -665,7 +666,11 @@ func parseSpecFile(path, text, pkg string, trusted bool) (*SpecFile, error) {
 					continue
 				}
 				c := &Clause{Kind: "modifies", Text: part, Line: loc}
-				if part != "nothing" && part != "heap" && !strings.HasSuffix(part, "[*]") && !strings.HasPrefix(part, "*") {
+				if strings.HasPrefix(part, "memory except ") {
+					c.Except = strings.Fields(strings.TrimPrefix(part, "memory except "))
+					c.Text, part = "memory", "memory"
+				}
+				if part != "nothing" && part != "heap" && part != "memory" && !strings.HasSuffix(part, "[*]") && !strings.HasPrefix(part, "*") {
 					e, err := parseSpecExpr(part)
 					if err != nil {
 						return nil, fmt.Errorf("%s: %v", loc, err)
